@@ -22,9 +22,11 @@ import (
 	"encoding/gob"
 	"fmt"
 	"io"
+	"maps"
 	"math"
 	"os"
 	"reflect"
+	"slices"
 	"sort"
 
 	"github.com/siglens/siglens/pkg/config"
@@ -140,6 +142,36 @@ func NewIQRWithReader(qid uint64, reader record.RRCsReaderI) *IQR {
 
 func (iqr *IQR) BlankCopy() *IQR {
 	return NewIQR(iqr.qid)
+}
+
+// Copy returns an IQR with the same records and columns as this one; adding,
+// dropping, reordering, renaming or overwriting records, columns or cells of
+// either one does not change the other. The RRCs and the values themselves are
+// shared, only the slices and maps that hold them are copied.
+func (iqr *IQR) Copy() *IQR {
+	if iqr == nil {
+		return nil
+	}
+
+	copied := *iqr
+	copied.rrcs = slices.Clone(iqr.rrcs)
+	copied.encodingToSegKey = maps.Clone(iqr.encodingToSegKey)
+	copied.knownValues = make(map[string][]sutils.CValueEnclosure, len(iqr.knownValues))
+	for cname, values := range iqr.knownValues {
+		copied.knownValues[cname] = slices.Clone(values)
+	}
+	copied.deletedColumns = maps.Clone(iqr.deletedColumns)
+	copied.renamedColumns = maps.Clone(iqr.renamedColumns)
+	copied.columnIndex = maps.Clone(iqr.columnIndex)
+	copied.groupbyColumns = slices.Clone(iqr.groupbyColumns)
+	copied.measureColumns = slices.Clone(iqr.measureColumns)
+	if iqr.statsResults != nil {
+		statsResults := *iqr.statsResults
+		copied.statsResults = &statsResults
+	}
+	copied.isDirty = true
+
+	return &copied
 }
 
 func (iqr *IQR) GetQID() uint64 {
